@@ -21,7 +21,20 @@ from .. import common, corr_parse, gram
 from ..sexp import Sym, dumps, loads
 
 META = dict(
-    text="see THEOREMS / lean/PPProofs/Props/C16.lean",
+    text="Lean theorem PP.Infix.infix_roundtrip_partial (PPProofs/Props/C16.lean), for ALL operator tables of class T with ANY "
+         "number of levels and ALL expression trees of ALL sizes in the table's normal form, written with arbitrary blanks "
+         "before every token and trailing blanks: parse_string(parse_all=True) of the model parser (shared parse model + the "
+         "captive _FB lookahead) on infixGrammar(table) returns exactly [nest table tree] for every fuel from some point on "
+         "- tighter levels nest inside looser ones, right-associative chains nest to the right, prefix operators stack, "
+         "parentheses override both. Class T: operand Word(cs); suppressed parentheses; every level a RIGHT-associative "
+         "binary or a prefix operator without parse action; spellings non-empty, not starting with a blank or operand "
+         "character, pairwise prefix-incomparable. Supporting theorems (all kinds-independent): goal_lift (a tighter tree "
+         "passes through a looser level unchanged: the _FB lookahead fails), goal_atom/goal_paren/goal_pre/goal_binR. "
+         "PARTIAL - NOT proved, covered by the correspondence legs and the independent precedence-climbing oracle only: "
+         "LEFT-associative levels (flat group [a op b op c]), postfix and ternary levels, kept (non-Suppress) parentheses, "
+         "level parse actions, overlapping spellings (<, <=, *, **), ill-formed strings, evaluation (a corollary of the "
+         "nesting) and packrat (C02's packrat_transparent covers the shared model, not parseStepX/_FB; packrat is compared on "
+         "the real code on every case).",
     note="Trusted: Lean kernel; axioms propext/Classical.choice/Quot.sound; the shared parse model + parseStepX (_FB), "
          "validated differentially on every run against the live objects; infixGrammar is the POST-streamline shape and is "
          "compared with the live object graph on every run (node numbering and len(str(e)) excepted).",
@@ -30,7 +43,16 @@ META = dict(
     design="§5 C16",
 )
 
-THEOREMS = []
+THEOREMS = [
+    "PP.Infix.infix_roundtrip_partial",
+    "PP.Infix.goal_all",
+    "PP.Infix.lift_all",
+    "PP.Infix.goal_lift",
+    "PP.Infix.goal_atom",
+    "PP.Infix.goal_paren",
+    "PP.Infix.goal_pre",
+    "PP.Infix.goal_binR",
+]
 
 WS_DEFAULT = " \t\n\r"
 
@@ -75,7 +97,27 @@ def class_T(tbl):
         and not any(lv["acts"] for lv in tbl["levels"])
 
 
-def gen_table(rng, overlapping=False, max_levels=6, acts=False, kinds=None):
+def postfix_shadow(tbl):
+    """signature region of the registered finding `postfix_op_prefix_of_longer_operator`: a postfix (arity 1, LEFT)
+    operator whose spelling is a proper prefix of another operator/paren spelling of the table"""
+    sp = spellings(tbl)
+    for lv in tbl["levels"]:
+        if level_kind(lv) == "L1" and any(x != lv["op1"] and x.startswith(lv["op1"]) for x in sp):
+            return True
+    return False
+
+
+def prefix_shadow(tbl):
+    """signature region of `prefix_op_prefix_of_longer_prefix_op`: a prefix (arity 1, RIGHT) operator whose spelling is
+    a proper prefix of another prefix operator's spelling or of lpar"""
+    pre = [lv["op1"] for lv in tbl["levels"] if level_kind(lv) == "R1"]
+    for p in pre:
+        if any(x != p and x.startswith(p) for x in pre + [tbl["lpar"]]):
+            return True
+    return False
+
+
+def gen_table(rng, overlapping=False, max_levels=6, acts=False, kinds=None, pars=False):
     base = rng.choice(["0123456789", "0123456789", "abc", "xyz01"])
     pool = list(SYM_POOL)
     if base == "0123456789" and rng.random() < 0.3:
@@ -109,8 +151,12 @@ def gen_table(rng, overlapping=False, max_levels=6, acts=False, kinds=None):
             levels.append(lv)
         if ok:
             tbl = dict(base=base, levels=levels, lpar=lpar, rpar=rpar, lsup=True, rsup=True)
+            if pars:
+                tbl["lsup"], tbl["rsup"] = rng.choice([(True, True), (False, False), (False, False), (True, False), (False, True)])
             if any(s[0] in base for s in spellings(tbl)):
                 continue
+            if postfix_shadow(tbl) or prefix_shadow(tbl):
+                continue  # registered finding: only its witness touches that region
             return tbl
     return dict(base="0123456789", levels=[dict(arity=2, right=False, op1="+", op2="", acts=[])], lpar="(", rpar=")",
                 lsup=True, rsup=True)
@@ -701,12 +747,13 @@ def oracle_check(pp, root, tbl, s, tree, mode):
             return ("well-formed expression is accepted", ["ok", [ref[1]]], list(got))
         if got[1] != [ref[1]]:
             return ("nesting equals the precedence-climbing nesting", [ref[1]], got[1])
-        try:
-            v = eval_nesting(tbl, got[1][0])
-        except RefError:
-            return ("result groups have a documented shape", [ref[1]], got[1])
-        if v != ref[2]:
-            return ("evaluated value equals the precedence-climbing value", ref[2], v)
+        if tbl["lsup"] and tbl["rsup"]:
+            try:
+                v = eval_nesting(tbl, got[1][0])
+            except RefError:
+                return ("result groups have a documented shape", [ref[1]], got[1])
+            if v != ref[2]:
+                return ("evaluated value equals the precedence-climbing value", ref[2], v)
     else:
         if got[0] == "ok":
             return ("ill-formed expression is rejected", ["err", ref[1]], list(got))
@@ -895,6 +942,32 @@ def run(ctx):
     run_behaviour(ctx, "model-vs-real:infixGrammar+parseX", bj)
     run_spec(ctx, "spec-vs-real:render/nest", jt)
     run_oracle(ctx, "oracle:class-T", jt)
+    # overlapping spellings (<, <=, *, **, -, --): tokens separated by blanks, rendered trees only (a mutation may glue
+    # two tokens into a longer spelling, where scannerless matching and maximal munch legitimately differ)
+    jo = make_jobs(ctx, "OV", ctx.budget(120, 1200), dict(overlapping=True, max_levels=4), 6, 0, must_ws=True, need_T=False)
+    bo = []
+    for j in jo:
+        prog, rootv = table_prog(j["tbl"], j["par_variant"])
+        bo.append(dict(prog=prog, root=rootv, tbl=j["tbl"], inputs=[s for s, _ in j["inputs"]], via="infixp"))
+    run_behaviour(ctx, "model-vs-real:overlapping-spellings", bo)
+    run_oracle(ctx, "oracle:overlapping-spellings", jo)
+    # kept parentheses and level parse actions (incl. failing and fatal ones)
+    jg = make_jobs(ctx, "G", ctx.budget(150, 1500), dict(overlapping=False, acts=True, pars=True, max_levels=4), 5, 2)
+    run_structure(ctx, "structure:kept-parens+actions", [j["tbl"] for j in jg])
+    bg = []
+    for j in jg:
+        prog, rootv = table_prog(j["tbl"], j["par_variant"])
+        bg.append(dict(prog=prog, root=rootv, tbl=j["tbl"], inputs=[s for s, _ in j["inputs"]], via="infixp"))
+        bg.append(dict(prog=prog, root=rootv, tbl=j["tbl"], inputs=[s for s, _ in j["inputs"][:4]], via="ppx"))
+    run_behaviour(ctx, "model-vs-real:kept-parens+actions", bg)
+    run_oracle(ctx, "oracle:kept-parens", [j for j in jg if not any(lv["acts"] for lv in j["tbl"]["levels"])])
+    if ctx.broken and not ctx.fail_inputs:
+        # a broken obligation or a correspondence diff: search harder on the real code
+        for r in range(4):
+            jx = make_jobs(ctx, f"X{r}", ctx.budget(400, 2000), dict(overlapping=False), 8, 3, need_T=True)
+            run_oracle(ctx, "oracle:search", jx)
+            if ctx.fail_inputs:
+                break
 
 
 def run_corpus(ctx):
